@@ -582,7 +582,13 @@ theorem all_nowrite_flatMap2 (l : List Nat) (f g : Nat → Step) (hf : ∀ i, (f
 theorem tensor_ttv_ndefs (p : Params) (ops : List View) :
     ndefs (tensor_ttv p ops).prog = if p.flag == "scalar" then 4 else 6 := by
   unfold tensor_ttv
-  split <;> simp [tensorCtor, ndefs_cons, ndefs_nil, ndefs_append, Step.isWrite]
+  (repeat' split) <;> simp_all [tensorCtor, ndefs_cons, ndefs_nil, ndefs_append, Step.isWrite]
+
+/-- the parameters of a product that leaves a tensor never carry the flag "scalar" (an empty mode
+selection has its own flag "none") -/
+theorem ttvP_not_scalar (N : Nat) (dims : List Nat) : ((ttvP N dims false).flag == "scalar") = false := by
+  unfold ttvP
+  cases dims <;> simp
 
 theorem chk_ttensor_ttv (p : Params) (ops : List View) (h : ttPre (regsBelow (·.perm)) p ops.length = true) :
     specCheck .pureFresh ops.length (ttensor_ttv p ops) = true := by
@@ -628,7 +634,7 @@ theorem chk_ttensor_ttv (p : Params) (ops : List View) (h : ttPre (regsBelow (·
       · intro r hr
         have : r = ops.length + 2 * p.dims.length + 5 := by simpa using hr
         subst this
-        rw [Acc.call_free, hfree, tensor_ttv_ndefs]; simp [ttvP, hs]
+        rw [Acc.call_free, hfree, tensor_ttv_ndefs, ttvP_not_scalar]; simp
       · intro r hr
         rw [Acc.call_free, hfree]
         have := hrem r hr; omega
@@ -1240,6 +1246,20 @@ theorem chk_sumtensor_ttv (p : Params) (ops : List View) (h : sumPre (·.dims.le
 
 /-! ### the whole table -/
 
+/-! ### parameter corner cases -/
+
+theorem chk_tensor_symmetrize (p : Params) (ops : List View) :
+    specCheck .pureFresh ops.length (tensor_symmetrize p ops) = true := by
+  unfold tensor_symmetrize; (repeat' split) <;> chk_simp2
+
+theorem chk_tensor_ttsv (p : Params) (ops : List View) :
+    specCheck .pureFresh ops.length (tensor_ttsv p ops) = true := by
+  unfold tensor_ttsv; (repeat' split) <;> chk_simp2
+
+theorem chk_func_khatrirao (p : Params) (ops : List View) :
+    specCheck .pureFresh ops.length (func_khatrirao p ops) = true := by
+  unfold func_khatrirao; (repeat' split) <;> chk_simp2
+
 theorem table2_sound : ∀ e ∈ table2, ∀ (p : Params) (ops : List View), e.check p ops = true := by
   intro e he p ops
   simp only [table2, List.mem_cons, List.mem_singleton, List.not_mem_nil, or_false] at he
@@ -1248,7 +1268,7 @@ theorem table2_sound : ∀ e ∈ table2, ∀ (p : Params) (ops : List View), e.c
   · simp only [hpre, Bool.not_true, Bool.false_or]
     rcases he with rfl | rfl | rfl | rfl | rfl | rfl | rfl | rfl | rfl | rfl | rfl | rfl | rfl | rfl | rfl |
       rfl | rfl | rfl | rfl | rfl | rfl | rfl | rfl | rfl | rfl | rfl | rfl | rfl | rfl | rfl | rfl | rfl |
-      rfl | rfl | rfl | rfl | rfl | rfl | rfl
+      rfl | rfl | rfl | rfl | rfl | rfl | rfl | rfl | rfl | rfl
     · exact chk_reads_only p ops
     · exact chk_tenmat_init2 p ops hpre
     · exact chk_tenmat_copy p ops
@@ -1288,6 +1308,9 @@ theorem table2_sound : ∀ e ∈ table2, ∀ (p : Params) (ops : List View), e.c
     · exact chk_sumtensor_innerprod p ops hpre
     · exact chk_sumtensor_mttkrp p ops hpre
     · exact chk_sumtensor_ttv p ops hpre
+    · exact chk_tensor_symmetrize p ops
+    · exact chk_tensor_ttsv p ops
+    · exact chk_func_khatrirao p ops
   · simp [hpre]
 
 /-- Every entry of the operation table (parts 3 and 4) passes the static check of its
